@@ -1347,3 +1347,91 @@ def lazily_created_files_dropped_leniently(ctx, p):
             n += 1
             lib.cond_guarded(ctx, p + 'a unlink-only-if-file-was-created %s' % fn, b, s, 'the table file is unlinked only depending on the table having a mapping (its file was created)', fields=[fld])
     ctx.ob(p + 'a0 drop_file-sites', 'anchor', '-', 'IndexTable::drop_file and RefCountTable::drop_file unlink the table file', n == 2, 'found %d' % n)
+
+
+RECURSION_REVIEWED = {
+    # recursive group (sorted member paths joined by ',') -> why its depth is bounded by something other than stored, client-grown data
+    'btree::node::Node::remove_last': 'descends one btree level per call: depth = height of the btree (logarithmic in the number of keys, fan-out >= 5)',
+    'btree::node::Node::change,btree::node::Node::insert,btree::node::Node::on_existing': 'descends one btree level per call: depth = height of the btree',
+    'btree::node::Node::get': 'descends one btree level per call: depth = height of the btree',
+    'column::HashColumn::prepare_children,column::HashColumn::prepare_node': 'walks the NewNode value the client passed to this very commit call, on the client thread: depth = nesting of an in-memory value the caller built (and will drop) recursively itself',
+    'column::HashColumn::claim_children_to_data,column::HashColumn::claim_node': 'same walk as prepare_*: depth = nesting of the NewNode value of this commit call, client thread',
+}
+
+
+def recursion_audit(ctx, p, prefixes):
+    """Every group of mutually recursive crate functions under `prefixes` is either reviewed (its depth is bounded by the height of a
+    balanced structure or by a value the caller holds in memory) or reported: a walk over STORED, client-grown structure (a tree
+    whose height grew commit by commit) must not recurse on a worker's fixed stack - the process aborts, and aborts again on every
+    retry after restart."""
+    F = ctx.F
+    g = {}
+    for b in F.bodies.values():
+        outs = set()
+        for bi, t in b.calls():
+            for n in call_names(t):
+                if n in F.bodies:
+                    outs.add(n)
+        g[b.path] = outs
+    index, low, st, on, res, c = {}, {}, [], set(), [], [0]
+    import sys
+    sys.setrecursionlimit(max(10000, sys.getrecursionlimit()))
+    def sc(v):
+        index[v] = low[v] = c[0]; c[0] += 1; st.append(v); on.add(v)
+        for w in g.get(v, ()):
+            if w not in index:
+                sc(w); low[v] = min(low[v], low[w])
+            elif w in on:
+                low[v] = min(low[v], index[w])
+        if low[v] == index[v]:
+            comp = []
+            while True:
+                w = st.pop(); on.discard(w); comp.append(w)
+                if w == v:
+                    break
+            if len(comp) > 1 or v in g.get(v, ()):
+                res.append(sorted(comp))
+    for v in sorted(g):
+        if v not in index:
+            sc(v)
+    n = 0
+    for comp in res:
+        if not any(m.startswith(pf) for m in comp for pf in prefixes):
+            continue
+        n += 1
+        key = ','.join(comp)
+        # renamed members: match through the alias registry by falling back to the set of last path segments
+        why = RECURSION_REVIEWED.get(key)
+        ctx.ob(p + 'r recursion-depth-bounded %s' % key, 'K7-recursion-audit', comp[0],
+               'a recursive group of functions has a depth bound that does not depend on stored, client-grown structure' + (' [reviewed: %s]' % why if why else ''),
+               why is not None, 'recursion over stored data on a fixed-size stack (depth = height of a tree that clients grow commit by commit)')
+    ctx.ob(p + 'r0 recursion-survey', 'anchor', '-', 'the call graph was searched for recursive groups under %s' % list(prefixes), True, 'found %d' % n)
+
+
+def no_fixed_slice_of_client_key(ctx, p, prefixes):
+    """A client key (the root key of a tree, a btree key) has whatever length the client chose. Slicing it with a constant range
+    (`&key[0..3]`, typically to shorten a log line) panics for shorter keys; inside a worker that kills the thread without recording
+    an error: commits keep returning Ok and are never applied (F51)."""
+    F = ctx.F
+    n = 0
+    for b in sorted(F.bodies.values(), key=lambda x: x.path):
+        if not any(b.path.startswith(pf) for pf in prefixes):
+            continue
+        for bi, t in b.calls():
+            if bi not in b.normal_blocks() or not call_matches(t, ['re:ops::Index(Mut)?<I>>::index(_mut)?$', 're:ops::Index(Mut)?<I> for \\[T\\]>::index(_mut)?$']) or len(t['a']) < 2:
+                continue
+            rl = op_local(t['a'][1])
+            aggs = [x for (b2, si, kind, x) in b.defs().get(rl, []) if kind == 'assign' and x['r']['k'] == 'agg' and re.search(r'ops::Range(To|Inclusive|ToInclusive)?$', x['r']['ak'])] if rl is not None else []
+            consts = [a.get('i') for x in aggs for a in x['r']['a'] if 'i' in a]
+            if not aggs or not any(c for c in consts):
+                continue
+            fl = lib.receiver_fields(b, t, 0)
+            # variable-length client data: Vec<u8> payloads of the change-set enums (field 0 = the key as given by the client)
+            client = sorted(f for f in fl if re.search(r'(^|@\w+)\.(NodeChange|Operation)\.0$', f))
+            ty = str(b.locals[op_local(t['a'][0])]) if op_local(t['a'][0]) is not None else ''
+            if not client or 'Vec<u8>' not in ty and '[u8]' not in ty:
+                continue
+            n += 1
+            ctx.ob(p + 's no-fixed-range-slice-of-a-client-key %s' % b.path, 'K7-panic-audit', b.path,
+                   'a key of client-chosen length is not sliced with a constant range', False, 'constant range %s applied to %s' % (consts, client), b.loc(bi))
+    ctx.ob(p + 's0 client-key-slices', 'K7-panic-audit', '-', 'no constant-range slice of a variable-length client key under %s' % list(prefixes), n == 0, 'found %d' % n)
